@@ -11,6 +11,7 @@ import PyCraft.Drive.Login
 import PyCraft.Drive.LoginWire
 import PyCraft.Drive.HandshakeWire
 import PyCraft.Drive.PlayWire
+import PyCraft.Drive.SessionWire
 import PyCraft.Drive.Play
 import PyCraft.Drive.Versions
 import PyCraft.Drive.Writers
@@ -24,7 +25,7 @@ Anything unparsable yields `bad-op` (never a default value).
 -/
 open PyCraft PyCraft.Drive
 
-def handlers : List (List String → Option String) := [varint, mchash, position, auth, cfb8, dispatch, negotiate, Drive.frame, trackers, login, play, versions, writers, packets, lifecycle, Drive.layout, Drive.wireReal, Drive.loginwire, Drive.hswire, Drive.playwire]
+def handlers : List (List String → Option String) := [varint, mchash, position, auth, cfb8, dispatch, negotiate, Drive.frame, trackers, login, play, versions, writers, packets, lifecycle, Drive.layout, Drive.wireReal, Drive.loginwire, Drive.hswire, Drive.playwire, Drive.sessionwire]
 
 def handle (toks : List String) : String :=
   match handlers.findSome? (· toks) with
